@@ -43,6 +43,13 @@ func plan(tier string, seed int64) []driver.Case {
 	add := func(op, cfg string, attempts []string, async bool, cancelAt int) {
 		id := fmt.Sprintf("%s/%s/%s/async=%v/cancel=%d", op, cfg, strings.Join(attempts, "|"), async, cancelAt)
 		cases = append(cases, driver.Case{ID: id, P: map[string]string{"op": op, "cfg": cfg, "attempts": strings.Join(attempts, "|"), "async": fmt.Sprint(async), "cancel": fmt.Sprint(cancelAt)}})
+		if async && len(attempts) >= 2 && len(attempts) <= 3 {
+			// the goroutine that ends attempt k is held between the terminal callbacks and the
+			// release of that attempt: the next attempt must wait for the release, not for the callback
+			for k := 1; k < len(attempts); k++ {
+				cases = append(cases, driver.Case{ID: id + fmt.Sprintf("/park=%d", k), P: map[string]string{"op": op, "cfg": cfg, "attempts": strings.Join(attempts, "|"), "async": "true", "cancel": fmt.Sprint(cancelAt), "park": fmt.Sprint(k)}})
+			}
+		}
 	}
 	for n := 1; n <= maxAttempts; n++ {
 		for _, at := range seqs(n) {
@@ -342,6 +349,19 @@ func runCase(c driver.Case) driver.Result {
 		hook(s)
 	}
 	r := rec.New(op)
+	var parkedAt atomic.Int64
+	if pk := c.Get("park"); pk != "" {
+		arrived, release := sched.Park("subscriber.terminal.unlocked", c.Int("park"))
+		defer sched.ClearParks()
+		go func() {
+			<-arrived
+			parkedAt.Store(started.Load())
+			// whoever wrongly takes the terminal callback for the end of the attempt gets time to
+			// subscribe the next one; whoever waits for the release is still waiting afterwards
+			time.Sleep(5 * time.Millisecond)
+			release()
+		}()
+	}
 	st, dump, pan := quiesce.Call(func() { obs.SubscribeWithContext(ctx, rec.Raw[int](r)) }, 20*time.Second)
 	what := fmt.Sprintf("%s(%s) over attempts [%s] (async=%v, cancel at attempt %d)", op, cfg, c.Get("attempts"), async, cancelAt)
 	fail := func(key, msg string) driver.Result {
